@@ -70,7 +70,8 @@ def doc_text(dl_t, g, j, doc, rot):
         # these words (compared in lower case)
         return SKIP_WORDS[(rot + g + j) % len(SKIP_WORDS)]
     if dl_t == 'tag':
-        return ['Example:', 'Doctest:', 'Example:', 'Examples:'][(rot + g) % 3]
+        # the tags of example blocks: Example / Examples / Doctest, single or double colon, blanks before the colon allowed
+        return ['Example:', 'Doctest:', 'Examples:', 'Example::', 'Doctest::', 'Examples ::', 'Example :'][(rot + g) % 7]
     if dl_t == 'inprose':
         return '    an explanation inside the block'
     if dl_t == 'othertag':
